@@ -29,7 +29,9 @@ pub fn generate(tier: &str, rng: &mut Rng) -> Vec<Spec> {
             let len = rng.range(2, if t { 40 } else { 12 }) as usize;
             let xs: Vec<i64> = (0..len).map(|_| rng.range(-9, 9)).collect();
             let mut s = Spec::new(mode).with("tree", tree.show());
-            if mode == "source" { kinds[0] = 4; let n = rng.below(7) as usize; s = s.with("src", join(&xs[..n.min(xs.len())])).with("pulls", n + 3); }
+            if mode == "source" { kinds[0] = 4; let n = rng.below(7) as usize; let mut sc: Vec<i64> = xs[..n.min(xs.len())].to_vec();
+                if sc.len() >= 2 && rng.coin(1, 2) { let at = rng.below(sc.len() as u64) as usize; sc.insert(at, -999); }      // a pause: the source answers None and later delivers again
+                s = s.with("src", join(&sc)).with("pulls", sc.len() + 3); }
             if mode == "sink" { kinds[k - 1] = 5 + rng.below(3) as usize; }
             s = s.with("kinds", join(&kinds));
             if mode != "source" { s = s.with("xs", join(&xs)); }
